@@ -176,6 +176,17 @@ package lang
 //@ spec func specStr(v Value) string = v.Tag == ValueStr ? *v.Str : (v.Tag == ValueNum ? fmtNum(*v.Num) : "")
 //@ spec func specTruthy(v Value) bool = v.Tag == ValueBool ? *v.Bool : (v.Tag == ValueNum ? *v.Num != 0.0 : (v.Tag == ValueStr ? len(*v.Str) > 0 : (v.Tag == ValueArray || v.Tag == ValueObj || v.Tag == ValueFn || v.Tag == ValueNativeFn)))
 //@ spec func isContainerTag(t ValueTag) bool = t == ValueArray || t == ValueObj
+// DESIGN.md 3.4 rows 2-6 as "smaller" / "greater"; equal is neither.
+//@ spec func scmpS(a string, b string) int = smt("scmp", int, a, b)
+//@ spec func specLess(a Value, b Value) bool = a.Tag == ValueNil && b.Tag == ValueNil ? false : (a.Tag == ValueNil ? true : (b.Tag == ValueNil ? false : (a.Tag == ValueStr && b.Tag == ValueStr ? scmpS(*a.Str, *b.Str) < 0 : specNum(a) < specNum(b))))
+//@ spec func specGreater(a Value, b Value) bool = a.Tag == ValueNil && b.Tag == ValueNil ? false : (a.Tag == ValueNil ? false : (b.Tag == ValueNil ? true : (a.Tag == ValueStr && b.Tag == ValueStr ? scmpS(*a.Str, *b.Str) > 0 : specNum(a) > specNum(b))))
+//@ spec func isCompareOp(t TokenTag) bool = t == LessThan || t == GreaterThan || t == EqualEqual || t == BangEqual || t == LessEqual || t == GreaterEqual
+//@ spec func specCompareOp(t TokenTag, a Value, b Value) bool = t == LessThan ? specLess(a, b) : (t == GreaterThan ? specGreater(a, b) : (t == EqualEqual ? !specLess(a, b) && !specGreater(a, b) : (t == BangEqual ? specLess(a, b) || specGreater(a, b) : (t == LessEqual ? !specGreater(a, b) : !specLess(a, b)))))
+// DESIGN.md 3.6: `a is T`.
+//@ spec func specIs(tok TokenTag, name string, k ValueTag) bool = tok == Function ? k == ValueFn : (tok == Null ? k == ValueNil : (name == "string" ? k == ValueStr : (name == "bool" ? k == ValueBool : (name == "number" ? k == ValueNum : (name == "array" ? k == ValueArray : (name == "object" ? k == ValueObj : (name == "regex" ? k == ValueRegex : (name == "unknown" ? k == ValueUnknown : false))))))))
+// DESIGN.md 3.7: RE2 (assumed library contract).
+//@ spec func reOK(p string) bool = smt("re_ok", bool, p)
+//@ spec func reMatch(p string, s string) bool = smt("re_match", bool, p, s)
 
 //@ func Value.asFloat64 [C05]
 //@   requires v != nil
@@ -364,6 +375,19 @@ package lang
 //@ ghost $faulted bool
 // Ghost snapshot: the frame pushed by the function under verification.
 //@ ghost $frame *stackFrame
+// Ghost snapshots of operand evaluation inside evalUnaryExpr/evalBinaryExpr (C05) and of match (C19):
+// $n counts the evalExpr calls made so far by the function under verification, $L/$R are the cells the
+// first/second call returned, $tL is the truthiness of the left operand right after it was evaluated.
+//@ ghost $n int
+//@ ghost $L *Cell
+//@ ghost $R *Cell
+//@ ghost $tL bool
+//@ ghost $numL float64
+//@ ghost $okR bool
+//@ ghost $isName string
+//@ ghost $nmatch int
+//@ ghost $ranBlock bool
+//@ ghost $lastCell *Cell
 
 // AST well-formedness: the children the evaluator dereferences are present.  Proved where the
 // parser builds the nodes, assumed where the evaluator loads them (type invariants).
@@ -442,8 +466,18 @@ package lang
 //@   ensures[C11] fault-latched: $faulted <==> isFault(err)
 //@   ensures evok: evOK(e)
 //@   after Evaluator.pushFrame: $frame = e.stackTop
-//@   loop 1 invariant protocol: evInv(e, old(e.stackTop))
-//@   loop 2 invariant in-match-frame: evOK(e) && e.stackTop == $frame && $frame.parent == old(e.stackTop) && !$faulted
+//@   init $nmatch = 0
+//@   init $ranBlock = false
+//@   after Evaluator.evalCaseMatch: $nmatch = (ret0 && ret2 == nil ? $nmatch + 1 : $nmatch)
+//@   after Evaluator.evalStatement: $ranBlock = true
+//@   after Evaluator.evalExpr: $lastCell = ret0
+//@   assert[C19] first-match-wins: $nmatch == 0 @ Evaluator.evalCaseMatch
+//@   assert[C19] body-only-after-match: $nmatch == 1 @ Evaluator.evalStatement
+//@   ensures[C19] block-body-yields-null: err == nil && istype(expr, *ExprMatch) && $ranBlock ==> result0.Value.Tag == ValueNil && fresh(result0)
+//@   ensures[C19] no-match-yields-null: err == nil && istype(expr, *ExprMatch) && $nmatch == 0 ==> result0.Value.Tag == ValueNil && fresh(result0)
+//@   ensures[C19] expression-body-yields-its-value: err == nil && istype(expr, *ExprMatch) && $nmatch == 1 && !$ranBlock ==> result0 == $lastCell
+//@   loop 1 invariant protocol: evInv(e, old(e.stackTop)) && $nmatch == 0 && !$ranBlock
+//@   loop 2 invariant in-match-frame: evOK(e) && e.stackTop == $frame && $frame.parent == old(e.stackTop) && !$faulted && $nmatch == 1 && !$ranBlock
 //@   loop 3 invariant protocol: evInv(e, old(e.stackTop)) && obj.Obj != nil && *obj.Obj != nil
 
 //@ func Evaluator.evalStatement [C01,C08,C11]
@@ -475,7 +509,7 @@ package lang
 
 //@   loop 0 invariant protocol: evInv(e, old(e.stackTop)) && len(evaledExprs) == rangeindex + 1
 
-//@ func Evaluator.evalUnaryExpr [C01,C08,C11]
+//@ func Evaluator.evalUnaryExpr [C01,C05,C08,C11]
 //@   modifies valueHeap, e.stackTop, e.returnVal
 //@   requires evOK(e) && expr != nil && !$faulted
 //@   updates $faulted, $out
@@ -483,9 +517,22 @@ package lang
 //@   ensures[C01] errkind: err == nil || isRT(err) || isFlow(err)
 //@   ensures[C08] stack-restored: stackKept(e, old(e.stackTop), err)
 //@   ensures[C11] fault-latched: $faulted <==> isFault(err)
+//@   init $n = 0
+//@   after Evaluator.evalExpr: $n = $n + 1
+//@   after Evaluator.evalExpr: $L = ($n == 1 ? ret0 : $L)
+//@   after Evaluator.evalExpr: $tL = ($n == 1 && ret1 == nil ? specTruthy(ret0.Value) : $tL)
+//@   after Evaluator.evalExpr: $numL = ($n == 1 && ret1 == nil ? specNum(ret0.Value) : $numL)
+//@   ensures[C05] not: expr.OpToken.Tag == Bang && err == nil ==> result0.Value.Tag == ValueBool && *result0.Value.Bool == !$tL
+//@   ensures[C05] unary-plus: expr.OpToken.Tag == Plus && err == nil ==> result0.Value.Tag == ValueNum && same(*result0.Value.Num, $numL)
+//@   ensures[C05] negate: expr.OpToken.Tag == Minus && err == nil ==> result0.Value.Tag == ValueNum && same(*result0.Value.Num, -$numL)
+//@   ensures[C05] postfix-yields-old-value: (expr.OpToken.Tag == PlusPlus || expr.OpToken.Tag == MinusMinus) && expr.Postfix && err == nil ==> result0.Value.Tag == ValueNum && same(*result0.Value.Num, $numL)
+//@   assert[C05] incr-stores-plus-one: expr.OpToken.Tag == PlusPlus ==> arg3.Value.Tag == ValueNum && same(*arg3.Value.Num, $numL + 1.0) && arg2 == $L @ Evaluator.evalAssignment
+//@   assert[C05] decr-stores-minus-one: expr.OpToken.Tag == MinusMinus ==> arg3.Value.Tag == ValueNum && same(*arg3.Value.Num, $numL - 1.0) && arg2 == $L @ Evaluator.evalAssignment
+//@   ensures[C05] one-operand-evaluation: $n == 1
+//@   ensures[C05] unknown-operator-is-error: expr.OpToken.Tag != Bang && expr.OpToken.Tag != Plus && expr.OpToken.Tag != Minus && expr.OpToken.Tag != PlusPlus && expr.OpToken.Tag != MinusMinus ==> err != nil
 //@   ensures evok: evOK(e)
 
-//@ func Evaluator.evalBinaryExpr [C01,C08,C11]
+//@ func Evaluator.evalBinaryExpr [C01,C05,C08,C11]
 //@   modifies valueHeap, e.stackTop, e.returnVal
 //@   requires evOK(e) && expr != nil && !$faulted
 //@   updates $faulted, $out
@@ -493,6 +540,33 @@ package lang
 //@   ensures[C01] errkind: err == nil || isRT(err) || isFlow(err)
 //@   ensures[C08] stack-restored: stackKept(e, old(e.stackTop), err)
 //@   ensures[C11] fault-latched: $faulted <==> isFault(err)
+//@   init $n = 0
+//@   after Evaluator.evalExpr: $n = $n + 1
+//@   after Evaluator.evalExpr: $L = ($n == 1 ? ret0 : $L)
+//@   after Evaluator.evalExpr: $tL = ($n == 1 && ret1 == nil ? specTruthy(ret0.Value) : $tL)
+//@   after Evaluator.evalExpr: $R = ($n == 2 ? ret0 : $R)
+//@   after Evaluator.evalExpr: $okR = ($n == 2 ? ret1 == nil : $okR)
+//@   after Lexer.GetString: $isName = ret0
+//@   ensures[C05] plus-concatenates-with-a-string: expr.OpToken.Tag == Plus && $n == 2 && $okR && ($L.Value.Tag == ValueStr || $R.Value.Tag == ValueStr) ==> err == nil && result0.Value.Tag == ValueStr && *result0.Value.Str == specStr($L.Value) + specStr($R.Value)
+//@   ensures[C05] plus-adds-otherwise: expr.OpToken.Tag == Plus && $n == 2 && $okR && $L.Value.Tag != ValueStr && $R.Value.Tag != ValueStr ==> err == nil && result0.Value.Tag == ValueNum && same(*result0.Value.Num, specNum($L.Value) + specNum($R.Value))
+//@   ensures[C05] minus: expr.OpToken.Tag == Minus && $n == 2 && $okR ==> err == nil && result0.Value.Tag == ValueNum && same(*result0.Value.Num, specNum($L.Value) - specNum($R.Value))
+//@   ensures[C05] multiply: expr.OpToken.Tag == Multiply && $n == 2 && $okR ==> err == nil && result0.Value.Tag == ValueNum && same(*result0.Value.Num, specNum($L.Value) * specNum($R.Value))
+//@   ensures[C05] divide-error-iff-zero-divisor: expr.OpToken.Tag == Divide && $n == 2 && $okR ==> ((err != nil) <==> specNum($R.Value) == 0.0)
+//@   ensures[C05] divide: expr.OpToken.Tag == Divide && err == nil ==> result0.Value.Tag == ValueNum && same(*result0.Value.Num, specNum($L.Value) / specNum($R.Value))
+//@   ensures[C05] modulo-error-iff-zero-truncated-divisor: expr.OpToken.Tag == Percent && $n == 2 && $okR ==> ((err != nil) <==> int(specNum($R.Value)) == 0)
+//@   ensures[C05] modulo: expr.OpToken.Tag == Percent && err == nil ==> result0.Value.Tag == ValueNum && same(*result0.Value.Num, float64(int(specNum($L.Value)) % int(specNum($R.Value))))
+//@   ensures[C05] compare-unset: isCompareOp(expr.OpToken.Tag) && $n == 2 && $okR && ($L.Value.Tag == ValueUnknown || $R.Value.Tag == ValueUnknown) ==> err == nil && result0.Value.Tag == ValueBool && *result0.Value.Bool == (expr.OpToken.Tag == LessThan || expr.OpToken.Tag == GreaterThan)
+//@   ensures[C05] compare-error-iff-container: isCompareOp(expr.OpToken.Tag) && $n == 2 && $okR && $L.Value.Tag != ValueUnknown && $R.Value.Tag != ValueUnknown ==> ((err != nil) <==> ($L.Value.Tag != ValueNil && $R.Value.Tag != ValueNil && (isContainerTag($L.Value.Tag) || isContainerTag($R.Value.Tag))))
+//@   ensures[C05] compare-result: isCompareOp(expr.OpToken.Tag) && err == nil && $L.Value.Tag != ValueUnknown && $R.Value.Tag != ValueUnknown ==> result0.Value.Tag == ValueBool && *result0.Value.Bool == specCompareOp(expr.OpToken.Tag, $L.Value, $R.Value)
+//@   ensures[C05] and-value: expr.OpToken.Tag == AmpAmp && err == nil ==> result0.Value.Tag == ValueBool && *result0.Value.Bool == ($tL && $n == 2 && specTruthy($R.Value))
+//@   ensures[C05] and-short-circuit: expr.OpToken.Tag == AmpAmp ==> ($n == 2 ==> $tL) && (err == nil && $tL ==> $n == 2)
+//@   ensures[C05] or-value: expr.OpToken.Tag == PipePipe && err == nil ==> result0.Value.Tag == ValueBool && *result0.Value.Bool == ($tL || ($n == 2 && specTruthy($R.Value)))
+//@   ensures[C05] or-short-circuit: expr.OpToken.Tag == PipePipe ==> ($n == 2 ==> !$tL) && (err == nil && !$tL ==> $n == 2)
+//@   ensures[C05] is-type-test: expr.OpToken.Tag == Is && err == nil ==> result0.Value.Tag == ValueBool && istype(expr.Right, *ExprIdentifier) && *result0.Value.Bool == specIs(as(expr.Right, *ExprIdentifier).token.Tag, $isName, $L.Value.Tag)
+//@   ensures[C05] is-needs-a-type-name: expr.OpToken.Tag == Is && $n == 1 && !istype(expr.Right, *ExprIdentifier) ==> err != nil
+//@   ensures[C05] is-evaluates-left-only: expr.OpToken.Tag == Is ==> $n == 1
+//@   ensures[C05] match-error-iff: (expr.OpToken.Tag == Tilde || expr.OpToken.Tag == BangTilde) && $n == 2 && $okR ==> ((err != nil) <==> (($R.Value.Tag != ValueStr && $R.Value.Tag != ValueRegex) || !reOK(*$R.Value.Str)))
+//@   ensures[C05] match-result: (expr.OpToken.Tag == Tilde || expr.OpToken.Tag == BangTilde) && err == nil ==> result0.Value.Tag == ValueBool && *result0.Value.Bool == (reMatch(*$R.Value.Str, specStr($L.Value)) != (expr.OpToken.Tag == BangTilde))
 //@   ensures evok: evOK(e)
 
 //@ func Evaluator.evalAssignment [C01,C08,C11]
@@ -518,9 +592,10 @@ package lang
 //@   after Evaluator.pushFrame: $frame = e.stackTop
 //@   loop 0 invariant protocol: evOK(e) && e.stackTop == $frame && $frame.parent == old(e.stackTop) && !$faulted
 
-//@ func Evaluator.evalCaseMatch [C01,C08,C11]
+//@ func Evaluator.evalCaseMatch [C01,C08,C11,C19]
 //@   modifies valueHeap, e.stackTop, e.returnVal
 //@   requires evOK(e) && value != nil && !$faulted
+//@   exit[C19] every-alternative-tried-before-failing: err == nil && !result0 ==> rangeindex#0 >= len(exprs)
 //@   loop 0 invariant protocol: evInv(e, old(e.stackTop))
 //@   loop 1 invariant protocol: evInv(e, old(e.stackTop))
 //@   loop 2 invariant protocol: evInv(e, old(e.stackTop))
